@@ -3,10 +3,12 @@
 # Parse every specification module once so that a broken spec fails here, not inside a check.
 cd "$(dirname "$0")/spec" || exit 2
 rc=0
+jt=$(mktemp -d)
 for f in *.tla; do
-  out=$(java -cp /opt/veriftools/tla/tla2tools.jar:/opt/veriftools/tla/CommunityModules-deps.jar tla2sany.SANY "$f" 2>&1)
+  out=$(java -Djava.io.tmpdir="$jt" -cp /opt/veriftools/tla/tla2tools.jar:/opt/veriftools/tla/CommunityModules-deps.jar tla2sany.SANY "$f" 2>&1)
   if echo "$out" | grep -q -i "error"; then echo "SANY failed on $f"; echo "$out" | tail -20; rc=2; fi
 done
+rm -rf "$jt"
 # the generated constant tables must be what the generator produces
 tmp=$(mktemp); python3 ../harness/gen_tables.py "$tmp" && cmp -s "$tmp" Tables.tla || { echo "spec/Tables.tla differs from harness/gen_tables.py output"; rc=2; }; rm -f "$tmp"
 exit $rc
